@@ -16,6 +16,10 @@ and spectator sessions are decided by the monitor on traces (their request lists
 the same clauses there).
 -/
 import GgrsModel.Model.Inventory
+import GgrsModel.Model.Sites.P2pSession
+import GgrsModel.Model.Sites.SyncLayer
+import GgrsModel.Model.Sites.SyncTestSession
+import GgrsModel.Model.Sites.SpectatorSession
 import GgrsModel.Properties.C04
 import GgrsModel.Proofs.Monad
 import GgrsModel.Proofs.Queue
